@@ -31,6 +31,10 @@ CHECKS = {
             "bounded-exhaustive direct drive of SPxMainSM<double> (simplify + unsimplify) over tiny-LP families x keepbounds x seeds x EVERY optimal basic solution of the reduced LP (exact enumeration), exact certificate check against the original LP",
             "The internal simplifier is driven without the solver around it (so the driver's silent re-solve cannot hide a wrong postsolve): for every canonical LP of the families, keepbounds on/off and presolve seed, the verdict (INFEASIBLE / UNBOUNDED / DUAL_INFEASIBLE / VANISHED / reduced LP + offset) is compared with the exact classification of the original LP; every optimal basic solution of the reduced LP - all of them, from exact basis enumeration, including degenerate ones - is pushed through a fresh simplify + unsimplify and the postsolved primal/slack/dual/reduced-cost vectors are judged by the exact certificate check against the original LP, the postsolved basis by the validity conditions (one basic variable per row, admissible nonbasic statuses, nonsingular basis matrix). The evidence lists how often each of the 17 reduction kinds fired.",
             "Trusted: exact oracle. Three groups of genuine postsolve defects are recorded in known_findings.json (aggregation steps, doubleton + vanished duals, statuses of degenerate vertices); violations outside those signature groups still fail the check."),
+    "C05": ("exploration", "DESIGN.md section 3 C05",
+            "bounded-exhaustive execution of the basis-inverse / basis-multiply queries over (LP family with entries spanning binary orders of magnitude) x representation x scaler x persistent scaling x every regular basis (exact enumeration, installed with setBasis) x every index / unit vector, exact rational reference for B",
+            "For every stride-th canonical LP of family P (entries {0,1,3,-16,1/2,8}) and each of the 42 combinations of representation(3) x scaler(7) x persistent scaling(2): optimize() (which installs persistent scaling), then the basis the solve ended with and EVERY regular basis of the LP (from exact enumeration) installed with setBasis; for each: getBasisInd consistent with the statuses, every row and column of the inverse (dense output and scattered output with index list = exactly the nonzeros), getBasisInverseTimesVecReal, multBasis and multBasisTranspose on all unit vectors and on (1..m), compared with exact arithmetic on B assembled from the harness's copy of the LP. unscale=true everywhere; unscale=false where the stored LP is not scaled.",
+            "Trusted: rational arithmetic on B. Linear maps are decided by their values on the unit vectors up to rounding (tolerance 1e-9 relative). One genuine defect group (row representation + scaled) is recorded in known_findings.json."),
 }
 
 NOT_YET = {}
